@@ -35,3 +35,7 @@ import importlib.util as _ilu, os as _os
 _sp = _ilu.spec_from_file_location("spec_C11_for_C10", _os.path.join(_os.path.dirname(__file__), "C11.py"))
 _m = _ilu.module_from_spec(_sp); _m.H = H; _sp.loader.exec_module(_m)
 HARNESSES = HARNESSES + [dict(next(h for h in _m.OWN if h["name"] == "C11.msg_allocator_pack"), name="C10.msg_allocator_pack")]
+_sp15 = _ilu.spec_from_file_location("spec_C15_for_C10", _os.path.join(_os.path.dirname(__file__), "C15.py"))
+_m15 = _ilu.module_from_spec(_sp15); _m15.H = H; _sp15.loader.exec_module(_m15)
+for _h in _m15.heapint(11, ("quick", "thorough"), 900):
+    _h = dict(_h); _h["name"] = _h["name"].replace("C15.", "C10."); HARNESSES.append(_h)
